@@ -15,7 +15,9 @@ import re
 import struct
 
 from .. import core
-from ..budget import run_with_budget, CountingStream, Sink
+from ..budget import run_with_budget, CountingStream, Sink, open_stream, STREAM_KINDS
+
+_rot = [0]
 
 INT_TYPES = {'Byte': (1, True), 'UnsignedByte': (1, False), 'Short': (2, True),
              'UnsignedShort': (2, False), 'Integer': (4, True), 'Long': (8, True),
@@ -69,6 +71,9 @@ def pyval(ty, v):
         return (2 * v[0] + v[1]) / 2 ** (ty[2] + 1)
     if t == 'PrefixedArray':
         return [pyval(ty[2], e) for e in v]
+    if t == 'Position':
+        from minecraft.networking.types import Position
+        return Position(*v)
     raise core.MachineryError('unknown type %r' % (ty,))
 
 
@@ -106,8 +111,10 @@ def do_send(obj, val, ctx):
 
 
 def do_read(obj, data, ctx):
-    st = CountingStream(data)
-    kind, r = run_with_budget(lambda: obj.read_with_context(st, ctx), 400000)
+    # the stream kinds the decoders meet in the library rotate: socket-file stand-in, PacketBuffer, BytesIO
+    _rot[0] += 1
+    stream, st = open_stream(STREAM_KINDS[_rot[0] % 3], data)
+    kind, r = run_with_budget(lambda: obj.read_with_context(stream, ctx), 400000)
     return kind, r, st.pos
 
 
